@@ -212,6 +212,32 @@ def _check_sol(spec, res):
         res.violation(f"C13|Solution|n={n}|version|parse-mismatch", bid, case)
     if back.benchmark_id != bid:
         res.violation(f"C13|Solution|n={n}|benchmark_id|not-a-fixpoint", f"{bid} -> {back.benchmark_id}", case)
+    # assignments through the public setters of a planning-problem solution: a rejected one (exception) leaves the solution as it was, an accepted
+    # one shows up in the printed id, which parses back
+    try:
+        from commonroad.common.solution import VehicleModel, CostFunction
+        for pi, pps in enumerate(sol.planning_problem_solutions):
+            for attr, values in (("vehicle_model", list(VehicleModel)), ("cost_function", list(CostFunction)[:6])):
+                for val in values:
+                    before_attr, before_bid = getattr(pps, attr), sol.benchmark_id
+                    try:
+                        setattr(pps, attr, val)
+                        accepted = True
+                    except Exception:
+                        accepted = False
+                    if not accepted:
+                        if getattr(pps, attr) != before_attr or sol.benchmark_id != before_bid:
+                            res.violation(f"C13|Solution|rejected-assignment:{attr}|solution-changed", f"{bid}: after the rejected {attr}={val.name}: {sol.benchmark_id}", case)
+                            return
+                    else:
+                        try:
+                            CommonRoadSolutionReader.fromstring(CommonRoadSolutionWriter(sol).dump())
+                        except Exception as e:
+                            res.violation(f"C13|Solution|accepted-assignment:{attr}|unreadable:{type(e).__name__}", f"{sol.benchmark_id}: {e!r}", case)
+                            return
+                        setattr(pps, attr, before_attr)
+    except Exception as e:
+        res.violation(f"C13|Solution|setter-route|raises:{type(e).__name__}", f"{bid}: {e!r}", case)
     # the parsed objects belong to the caller: editing them must not change what a later parse of the same document yields
     try:
         back.scenario_id.configuration_id = 77; back.scenario_id.cooperative = not back.scenario_id.cooperative; back.scenario_id.map_id = 55
